@@ -4,7 +4,7 @@ that minimisation can drop items structurally.  Everything is drawn from the rng
 is passed in; no set/dict-order dependence, no clock."""
 
 MASTER_NAMES = ["a", "aa", "ab", "b", "p", "phi", "alpha", "s", "sq", "r",
-                "n", "x", "foo", "i", "m", "k", "A", "U", "t", "zed"]
+                "n", "x", "foo", "i", "m", "k", "A", "U", "t", "zed", "p0", "p1"]
 PNAMES = ["p0", "p1", "p2"]
 GATES1 = ["Sgate", "Dgate", "Rgate", "Xgate", "Zgate", "Pgate", "Vgate", "Kgate"]
 GATES2 = ["BSgate", "S2gate", "CXgate", "CZgate", "MZgate"]
